@@ -66,8 +66,18 @@ def continuum_cases(draw):
     return dict(recipe=r, law=law, rho=rho, rho_field=rho_field, load_seed=load_seed)
 
 
+def _measures_e(mesh, g):
+    """element measures of a main group; planar 2D meshes: from the element boundaries alone (Green's theorem on the edge
+    interpolants, vlib.oracles.green_areas) - no quadrature rule of the library, so that a mass rule that is wrong on curved
+    elements is not its own reference; otherwise the library's integral of 1 (exactness: C07)"""
+    X = np.asarray(mesh.coord, float)
+    if g.dim == 2 and float(np.ptp(X[:, 2])) == 0.0:
+        return np.abs(orc.green_areas(g, X))
+    return np.asarray(g.Integrate_e(lambda x, y, z: 1.0 + 0 * x), float)
+
+
 def _measure(mesh):
-    return sum(float(np.sum(g.Integrate_e(lambda x, y, z: 1.0 + 0 * x))) for g in gm.main_groups(mesh))
+    return sum(float(np.sum(_measures_e(mesh, g))) for g in gm.main_groups(mesh))
 
 
 def check_elastic(case, rec):
@@ -90,7 +100,7 @@ def check_elastic(case, rec):
         rng = np.random.default_rng(case["rho_field"])
         rho_e = rng.uniform(0.5, 2.0, groups[0].Ne)
         simu.rho = rho_e
-        vol_e = np.asarray(groups[0].Integrate_e(lambda x, y, z: 1.0 + 0 * x), float)
+        vol_e = _measures_e(mesh, groups[0])
         rho_exact_mass = float(rho_e @ vol_e)
         rec.label("rho:per-element")
     else:
@@ -382,3 +392,28 @@ def check_mass_fields(case, rec):
 
 SUBS.append(Sub("mass_fields", check_mass_fields, enum=enum_mass_fields,
                 doc="element type x element count (= mass points, = stiffness points, 5) x per-element / per-point density or capacity x elastic / thermal"))
+
+
+# (added by the lead) curved (bent) 2D elements of every type: total mass / capacity against the boundary-based areas
+
+
+def _curved_recipes():
+    sq = [[1.0, 0.0], [0.3, 1.2], [-1.0, 0.2], [-0.1, -0.9]]
+    for et in gm.T2D:
+        for bend in (-0.12, 0.15):
+            yield dict(verts=sq, h=0.7, elemType=et, organised=False, extrude=None, layers=0, A=None, b=None, perm=None, orphans=0, bend=bend)
+
+
+def enum_curved_elastic(tier):
+    for i, r in enumerate(_curved_recipes()):
+        law = dict(cls="iso", dim=2, planeStress=(i % 2 == 0), thickness=0.5, E=3.0, v=0.3, angles=[0.1])
+        yield dict(recipe=r, law=law, rho=1.5, rho_field=(7 if i % 2 else None), load_seed=i)
+
+
+def enum_curved_thermal(tier):
+    for r in _curved_recipes():
+        yield dict(recipe=r, k=1.5, c=2.0, rho=0.75, thickness=0.5)
+
+
+SUBS.append(Sub("elastic_curved", check_elastic, enum=enum_curved_elastic, doc="every 2D element type x bent geometry: spectrum of K, M SPD, total mass vs boundary-based areas"))
+SUBS.append(Sub("thermal_curved", check_thermal, enum=enum_curved_thermal, doc="every 2D element type x bent geometry: conduction kernel, capacity total vs boundary-based areas"))
